@@ -211,3 +211,20 @@ def single_assignments(fnode):
         elif isinstance(n, ast.AugAssign) and isinstance(n.target, ast.Name):
             out.setdefault(n.target.id, []).append((n, ("aug", n.op, n.value)))
     return out
+
+
+def as_reduction(e, names=("sum",)):
+    """(name, reduced expression, dim node or None) for torch.sum(x, dim=d) / torch.sum(x, d) /
+    x.sum(d) / x.sum(dim=d) (any reduction in `names`); None otherwise."""
+    if not (isinstance(e, ast.Call) and isinstance(e.func, ast.Attribute) and e.func.attr in names):
+        return None
+    recv = e.func.value
+    is_mod = isinstance(recv, ast.Name) and recv.id in ("torch", "np", "F", "torchutils")
+    if is_mod:
+        if not e.args:
+            return None
+        inner, rest = e.args[0], list(e.args[1:])
+    else:
+        inner, rest = recv, list(e.args)
+    dim = next((k.value for k in e.keywords if k.arg in ("dim", "axis")), rest[0] if rest else None)
+    return e.func.attr, inner, dim
